@@ -89,6 +89,8 @@ class Acc:
         fid = findings.classify(self.pid, v)
         if fid is None:
             self.unknown_total += 1
+            self.extra.setdefault("_kinds", {})
+            self.extra["_kinds"][v.get("kind")] = self.extra["_kinds"].get(v.get("kind"), 0) + 1
             if len(self.unknown) < self.MAX_UNKNOWN:
                 self.unknown.append(v)
         else:
@@ -219,6 +221,10 @@ def run_check(pid, tier, seed, jobs):
                 tot.extra[k] = max(tot.extra.get(k, v), v)
             elif isinstance(v, (int, float)):
                 tot.extra[k] = tot.extra.get(k, 0) + v
+            elif k == "_kinds":
+                for kk, n in v.items():
+                    tot.extra.setdefault(k, {})
+                    tot.extra[k][kk] = tot.extra[k].get(kk, 0) + n
             elif isinstance(v, dict):
                 tot.extra.setdefault(k, {}).update(v)
             else:
@@ -305,6 +311,7 @@ def run_check(pid, tier, seed, jobs):
                 break
             print("VIOLATION property=%s replay=%s" % (pid, path))
             print("  %s: %s" % (v.get("kind"), json.dumps(jsonable(v.get("detail")))[:600]))
+        print("%s: violation kinds: %s" % (pid, json.dumps(tot.extra.get("_kinds", {}), sort_keys=True)))
         print(
             "%s: %d violating cases in total (%d replay files written)"
             % (pid, tot.unknown_total, min(len(seen), MAX_REPLAYS))
